@@ -403,3 +403,143 @@ func writesReceiver(info *types.Info, fd *ast.FuncDecl) bool {
 }
 
 var _ = sort.Strings
+
+// RuleSO1: collection stages precede the stage that builds the catalog.
+func RuleSO1(c *Ctx) {
+	sc := c.Run.Begin("SO1", "the pipeline runs its stages in the order scan, compileCore (macros, paste, rules, tags, user types, paths), buildCatalog, compileCatalog, validateCatalog, each later stage dominated by the success of the earlier ones; inside compileCore every collect step precedes compileUserTypes", 4)
+	defer sc.End()
+	pk := c.P.Pkg("core")
+	scan := c.scanStage()
+	later := c.laterStages()
+	if pk == nil || scan == nil || len(later) < 3 {
+		sc.Undecided("stages", "-", "unresolved anchor: pipeline stages")
+		return
+	}
+	// the pipeline function
+	var pipeline *ast.FuncDecl
+	c.P.Funcs(func(p *pkgT, fd *ast.FuncDecl) {
+		if p != pk {
+			return
+		}
+		n := 0
+		for _, g := range staticCallees(c.P, pk.TypesInfo, fd.Body) {
+			if g == scan {
+				n++
+			}
+			for _, l := range later {
+				if g == l {
+					n++
+				}
+			}
+		}
+		if n >= 4 {
+			pipeline = fd
+		}
+	})
+	if pipeline == nil {
+		sc.Undecided("pipeline", "-", "the function calling all stages was not found")
+		return
+	}
+	cf := c.CFG(pk, pipeline.Body)
+	info := pk.TypesInfo
+	stages := append([]*types.Func{scan}, later...)
+	callOf := map[*types.Func]*ast.CallExpr{}
+	ast.Inspect(pipeline.Body, func(n ast.Node) bool {
+		if call, ok := n.(*ast.CallExpr); ok {
+			if f := Callee(info, call); f != nil {
+				callOf[f] = call
+			}
+		}
+		return true
+	})
+	for i := 1; i < len(stages); i++ {
+		prev, cur := stages[i-1], stages[i]
+		key := prev.Name() + "<" + cur.Name()
+		// cur's call is reached only when prev returned nil:  je := prev(); je != nil -> return
+		gen := func(fa cfgx.Fact) bool {
+			be, ok := ast.Unparen(fa.Expr).(*ast.BinaryExpr)
+			if !ok {
+				return false
+			}
+			id, ok := ast.Unparen(be.X).(*ast.Ident)
+			if !ok {
+				return false
+			}
+			def, ok := ast.Unparen(cf.Resolve(id)).(*ast.CallExpr)
+			if !ok || Callee(info, def) != prev {
+				return false
+			}
+			isNil := false
+			if nid, ok := ast.Unparen(be.Y).(*ast.Ident); ok && nid.Name == "nil" {
+				isNil = true
+			}
+			return isNil && ((be.Op.String() == "!=" && !fa.Truth) || (be.Op.String() == "==" && fa.Truth))
+		}
+		if callOf[cur] != nil && cf.MustAt(callOf[cur], gen, nil, nil) {
+			sc.Holds(key, c.P.Pos(callOf[cur].Pos()), "runs only after the previous stage returned nil")
+		} else {
+			sc.Violation(key, c.P.Pos(pipeline.Pos()), fmt.Sprintf("stage %s is not dominated by the success of stage %s", cur.Name(), prev.Name()))
+		}
+	}
+	// inside compileCore: every other step precedes the user-type compilation and path collection
+	cc := later[0]
+	ccfd := c.P.Decl(cc)
+	ccf := c.CFG(pk, ccfd.Body)
+	var order []*types.Func
+	var calls []*ast.CallExpr
+	ast.Inspect(ccfd.Body, func(n ast.Node) bool {
+		if call, ok := n.(*ast.CallExpr); ok {
+			if f := Callee(info, call); f != nil && c.P.Decl(f) != nil && recvNamedOf(f) != nil {
+				order = append(order, f)
+				calls = append(calls, call)
+			}
+		}
+		return true
+	})
+	var compileUT *types.Func
+	var compileUTCall *ast.CallExpr
+	for i, f := range order {
+		if fd := c.P.Decl(f); fd != nil {
+			reachesSet := false
+			for _, g := range reachStatic(c.P, pk, []*types.Func{f}) {
+				if gd := c.P.Decl(g); gd != nil {
+					ast.Inspect(gd.Body, func(n ast.Node) bool {
+						if call, ok := n.(*ast.CallExpr); ok {
+							if h := Callee(info, call); h != nil && h.Name() == "Set" && fieldSel(info, Recv(call), c.Field("core", "JApiCore", "userTypes")) {
+								reachesSet = true
+							}
+						}
+						return true
+					})
+				}
+			}
+			if reachesSet {
+				compileUT, compileUTCall = f, calls[i]
+			}
+		}
+	}
+	if compileUT == nil {
+		sc.Undecided("compileCore", c.P.Pos(ccfd.Pos()), "the step that builds core.userTypes was not found in "+cc.Name())
+		return
+	}
+	for i, f := range order {
+		if f == compileUT || calls[i].Pos() > compileUTCall.Pos() {
+			continue
+		}
+		key := cc.Name() + ":" + f.Name() + "<" + compileUT.Name()
+		before := false
+		ccf.Before(compileUTCall, func(nd ast.Node) {
+			ast.Inspect(nd, func(y ast.Node) bool {
+				if y == ast.Node(calls[i]) {
+					before = true
+				}
+				return true
+			})
+		})
+		if before {
+			sc.Holds(key, c.P.Pos(calls[i].Pos()), "collected before user types are compiled, whatever the declaration order in the document")
+		} else {
+			sc.Violation(key, c.P.Pos(calls[i].Pos()), f.Name()+" does not run before "+compileUT.Name()+" on every path")
+		}
+	}
+}
